@@ -1,6 +1,7 @@
 package main
 
 import (
+	"fmt"
 	"go/ast"
 	"go/token"
 	"strings"
@@ -540,6 +541,379 @@ func c07IntArgs(s *source, e *emitter, rel, goName, suffix, leanName string) {
 		leanName, strings.Join(out, ", "))
 }
 
+// ---- round 5: typed effect lists and forwarded argument lists
+
+// c07EffType emits the inductive type of the effects (once).
+func c07EffType(e *emitter) {
+	e.printf(`/-- one synchronisation / memory effect of a statement, as read from the source (extract/c07.go c07Effects) -/
+inductive Eff
+  | lock (m : String) | unlock (m : String) | rlock (m : String) | runlock (m : String)
+  | mapGet (m k : String) | mapSet (m k v : String) | mapDel (m k : String)
+  | wgAdd (w : String) (n : Int) | wgDone (w : String) | wgWait (w : String)
+  | alloc (x : String) | callFn | call (f : String) | store (f : String)
+  | deferBegin | funcBegin | close | callLit | elseBegin
+  | ifc (c : String) | ret (r : String) | label (l : String) | goto_ (l : String) | other (s : String)
+  deriving DecidableEq, Repr
+
+`)
+}
+
+func c07EffOfToken(t string) string {
+	q := leanString
+	cut := func(s, pre, suf string) (string, bool) {
+		if strings.HasPrefix(s, pre) && strings.HasSuffix(s, suf) && len(s) >= len(pre)+len(suf) {
+			return s[len(pre) : len(s)-len(suf)], true
+		}
+		return "", false
+	}
+	switch t {
+	case "defer{":
+		return ".deferBegin"
+	case "func{":
+		return ".funcBegin"
+	case "}":
+		return ".close"
+	case "call func":
+		return ".callLit"
+	case "else{":
+		return ".elseBegin"
+	case "call fn()":
+		return ".callFn"
+	}
+	for _, m := range []struct{ suf, ctor string }{{".RLock()", ".rlock"}, {".RUnlock()", ".runlock"}, {".Lock()", ".lock"}, {".Unlock()", ".unlock"},
+		{".Done()", ".wgDone"}, {".Wait()", ".wgWait"}} {
+		if x, ok := cut(t, "call ", m.suf); ok {
+			return m.ctor + " " + q(x)
+		}
+	}
+	if x, ok := cut(t, "call ", ")"); ok {
+		if i := strings.Index(x, ".Add("); i >= 0 {
+			n := x[i+5:]
+			isInt := n != ""
+			for _, ch := range n {
+				if ch < '0' || ch > '9' {
+					isInt = false
+				}
+			}
+			if isInt {
+				return ".wgAdd " + q(x[:i]) + " " + n
+			}
+		}
+		return ".call " + q(x+")")
+	}
+	if x, ok := cut(t, "mapget ", "]"); ok {
+		if i := strings.Index(x, "["); i >= 0 {
+			return ".mapGet " + q(x[:i]) + " " + q(x[i+1:])
+		}
+	}
+	if x, ok := cut(t, "delete ", "]"); ok {
+		if i := strings.Index(x, "["); i >= 0 {
+			return ".mapDel " + q(x[:i]) + " " + q(x[i+1:])
+		}
+	}
+	if x, ok := cut(t, "mapset ", ""); ok {
+		i, j := strings.Index(x, "["), strings.Index(x, "] = ")
+		if i >= 0 && j > i {
+			return ".mapSet " + q(x[:i]) + " " + q(x[i+1:j]) + " " + q(x[j+4:])
+		}
+	}
+	if x, ok := cut(t, "new ", ""); ok {
+		return ".alloc " + q(x)
+	}
+	if x, ok := cut(t, "var ", ""); ok {
+		return ".alloc " + q(x)
+	}
+	if x, ok := cut(t, "store ", ""); ok {
+		return ".store " + q(x)
+	}
+	if x, ok := cut(t, "if ", " {"); ok {
+		return ".ifc " + q(x)
+	}
+	if x, ok := cut(t, "return", ""); ok {
+		return ".ret " + q(strings.TrimSpace(x))
+	}
+	if x, ok := cut(t, "label ", ""); ok {
+		return ".label " + q(x)
+	}
+	if x, ok := cut(t, "goto ", ""); ok {
+		return ".goto_ " + q(x)
+	}
+	return ".other " + q(t)
+}
+
+// c07Effects emits the ORDER OF EFFECTS of goName as a typed list (`List Eff`): lock / unlock with the mutex, map read /
+// write / delete with map and key, wait-group Add (with its literal amount) / Done / Wait, allocation, the call of the
+// user's function, stores, defer / literal brackets, conditions and returns.
+func c07Effects(s *source, e *emitter, rel, goName, leanName string) {
+	fd := s.findFunc(rel, goName)
+	if fd == nil {
+		e.errors = append(e.errors, "function "+goName+" not found in "+rel)
+		e.printf("/-- MISSING: %s in %s -/\ndef %s : List Eff := [.other \"MISSING\"]\n\n", goName, rel, leanName)
+		return
+	}
+	w := &c07Shaper{s: s}
+	w.block(fd.Body.List)
+	e.printf("/-- order of effects of `%s` in %s -/\ndef %s : List Eff := [", goName, rel, leanName)
+	for i, t := range w.out {
+		if i > 0 {
+			e.printf(",")
+		}
+		e.printf("\n  %s", c07EffOfToken(t))
+	}
+	e.printf("]\n\n")
+}
+
+// c07Forward emits, for the first call in goName (lit: inside its n-th function literal, 1-based; 0: anywhere outside
+// literals is not required - the first match in source order wins) whose callee text ends with calleeSuffix, where
+// every argument comes from:  i >= 0  the i-th parameter of goName;  100+j  the j-th parameter of the enclosing function
+// literal;  -2  context.Background();  -3  a function literal;  -1  anything else (a local, a computed value).
+func c07Forward(s *source, e *emitter, rel, goName, calleeSuffix string, lit int, leanName string) {
+	fd := s.findFunc(rel, goName)
+	fail := func(msg string) {
+		e.errors = append(e.errors, "c07Forward "+goName+" -> "+calleeSuffix+" ("+rel+"): "+msg)
+		e.printf("/-- MISSING: %s -/\ndef %s : List Int := [-999999]\n\n", msg, leanName)
+	}
+	if fd == nil {
+		fail("function not found")
+		return
+	}
+	params := map[string]int{}
+	n := 0
+	for _, f := range fd.Type.Params.List {
+		for _, nm := range f.Names {
+			params[nm.Name] = n
+			n++
+		}
+	}
+	var root ast.Node = fd.Body
+	lparams := map[string]int{}
+	if lit > 0 {
+		k := 0
+		var fl *ast.FuncLit
+		ast.Inspect(fd.Body, func(nd ast.Node) bool {
+			if x, ok := nd.(*ast.FuncLit); ok {
+				k++
+				if k == lit {
+					fl = x
+				}
+			}
+			return true
+		})
+		if fl == nil {
+			fail("function literal not found")
+			return
+		}
+		root = fl.Body
+		j := 0
+		for _, f := range fl.Type.Params.List {
+			for _, nm := range f.Names {
+				lparams[nm.Name] = j
+				j++
+			}
+		}
+	}
+	var call *ast.CallExpr
+	ast.Inspect(root, func(nd ast.Node) bool {
+		if lit == 0 {
+			if _, ok := nd.(*ast.FuncLit); ok {
+				return false
+			}
+		}
+		if c, ok := nd.(*ast.CallExpr); ok && call == nil && strings.HasSuffix(s.src(c.Fun), calleeSuffix) {
+			call = c
+		}
+		return true
+	})
+	if call == nil {
+		fail("call not found")
+		return
+	}
+	var out []string
+	for _, a := range call.Args {
+		code := -1
+		switch x := a.(type) {
+		case *ast.Ident:
+			if j, ok := lparams[x.Name]; ok {
+				code = 100 + j
+			} else if i, ok := params[x.Name]; ok {
+				code = i
+			}
+		case *ast.FuncLit:
+			code = -3
+		case *ast.CallExpr:
+			if s.src(x) == "context.Background()" {
+				code = -2
+			}
+		}
+		out = append(out, fmt.Sprint(code))
+	}
+	e.printf("/-- where the arguments of `%s(…)` in `%s` (%s) come from -/\ndef %s : List Int := [%s]\n\n",
+		s.src(call.Fun), goName, rel, leanName, strings.Join(out, ", "))
+}
+
+// c07DecisionTree translates the decision structure of goName (lit > 0: of its lit-th function literal) — nested
+// `if / else if / else` statements with returns anywhere, other statements in between, a final return — into
+//
+//	def <lean> (atoms… : Bool) : Nat        index of the return statement reached (numbered in source order)
+//	def <lean>Exits : List String           the text of every return statement, by index
+//	def <lean>Atoms : List String           the source text of every atom, in the order of the parameters
+//
+// Conditions are built from `!`, `&&`, `||` and parentheses; every other sub-expression (`err != nil`,
+// `errors.Is(err, x)`, an identifier) is an ATOM named by the caller, in pre-order of the `if` statements (an `if`
+// without any return inside is skipped but still consumes its atoms, so that the names stay aligned with the source).
+// A variable that is re-assigned between two conditions therefore gives two different atoms.
+func c07DecisionTree(s *source, e *emitter, rel, goName string, lit int, leanName string, atoms []string) {
+	fd := s.findFunc(rel, goName)
+	fail := func(msg string) {
+		e.errors = append(e.errors, "c07DecisionTree "+goName+" ("+rel+"): "+msg)
+		e.printf("/-- MISSING: %s -/\ndef %s : Nat := 999999\n\n", msg, leanName)
+		e.stringList(leanName+"Exits", "MISSING", []string{"MISSING"})
+		e.stringList(leanName+"Atoms", "MISSING", []string{"MISSING"})
+	}
+	if fd == nil {
+		fail("function not found")
+		return
+	}
+	list := fd.Body.List
+	if lit > 0 {
+		k := 0
+		var fl *ast.FuncLit
+		ast.Inspect(fd.Body, func(nd ast.Node) bool {
+			if x, ok := nd.(*ast.FuncLit); ok {
+				k++
+				if k == lit {
+					fl = x
+				}
+			}
+			return true
+		})
+		if fl == nil {
+			fail("function literal not found")
+			return
+		}
+		list = fl.Body.List
+	}
+	// number the returns in source order (function literals nested deeper are not entered)
+	exitIdx := map[token.Pos]int{}
+	var exits []string
+	var number func(n ast.Node)
+	number = func(n ast.Node) {
+		ast.Inspect(n, func(nd ast.Node) bool {
+			switch x := nd.(type) {
+			case *ast.FuncLit:
+				return false
+			case *ast.ReturnStmt:
+				var rs []string
+				for _, r := range x.Results {
+					rs = append(rs, s.src(r))
+				}
+				exitIdx[x.Pos()] = len(exits)
+				exits = append(exits, strings.TrimSpace("return "+strings.Join(rs, ", ")))
+			}
+			return true
+		})
+	}
+	for _, st := range list {
+		number(st)
+	}
+	hasReturn := func(n ast.Node) bool {
+		found := false
+		ast.Inspect(n, func(nd ast.Node) bool {
+			switch nd.(type) {
+			case *ast.FuncLit:
+				return false
+			case *ast.ReturnStmt:
+				found = true
+			}
+			return true
+		})
+		return found
+	}
+	next := 0
+	var atomSrc []string
+	bad := ""
+	var cond func(x ast.Expr) string
+	cond = func(x ast.Expr) string {
+		switch v := x.(type) {
+		case *ast.ParenExpr:
+			return "(" + cond(v.X) + ")"
+		case *ast.UnaryExpr:
+			if v.Op == token.NOT {
+				return "(!" + cond(v.X) + ")"
+			}
+		case *ast.BinaryExpr:
+			if v.Op == token.LAND {
+				return "(" + cond(v.X) + " && " + cond(v.Y) + ")"
+			}
+			if v.Op == token.LOR {
+				return "(" + cond(v.X) + " || " + cond(v.Y) + ")"
+			}
+		}
+		if next >= len(atoms) {
+			bad = "more atoms in the source than names given: " + s.src(x)
+			return "false"
+		}
+		a := atoms[next]
+		next++
+		atomSrc = append(atomSrc, s.src(x))
+		return a
+	}
+	var walk func(list []ast.Stmt, cont func() string) string
+	walk = func(list []ast.Stmt, cont func() string) string {
+		if len(list) == 0 {
+			return cont()
+		}
+		rest := func() string { return walk(list[1:], cont) }
+		st := list[0]
+		if ls, ok := st.(*ast.LabeledStmt); ok {
+			st = ls.Stmt
+		}
+		switch x := st.(type) {
+		case *ast.ReturnStmt:
+			return fmt.Sprint(exitIdx[x.Pos()])
+		case *ast.BlockStmt:
+			return walk(x.List, rest)
+		case *ast.IfStmt:
+			c := cond(x.Cond)
+			if !hasReturn(x) {
+				// (its atoms are consumed; nested conditions of a return-free if are not named)
+				return rest()
+			}
+			thenE := walk(x.Body.List, rest)
+			var elseE string
+			if x.Else != nil {
+				elseE = walk([]ast.Stmt{x.Else}, rest)
+			} else {
+				elseE = rest()
+			}
+			return "(if " + c + " = true then " + thenE + " else " + elseE + ")"
+		case *ast.ForStmt, *ast.RangeStmt, *ast.SwitchStmt, *ast.SelectStmt, *ast.TypeSwitchStmt:
+			if hasReturn(x) {
+				bad = "return inside a loop / switch: outside the translated subset"
+			}
+			return rest()
+		}
+		return rest()
+	}
+	body := walk(list, func() string { bad = "control reaches the end without a return"; return "999999" })
+	if bad != "" {
+		fail(bad)
+		return
+	}
+	if next != len(atoms) {
+		fail(fmt.Sprintf("%d atom names given, %d atoms in the source", len(atoms), next))
+		return
+	}
+	e.printf("/-- index of the return statement `%s`%s in %s reaches (translated from its if / else-if tree) -/\ndef %s", goName,
+		map[bool]string{true: "'s function literal", false: ""}[lit > 0], rel, leanName)
+	for _, a := range atoms {
+		e.printf(" (%s : Bool)", a)
+	}
+	e.printf(" : Nat :=\n  %s\n\n", body)
+	e.stringList(leanName+"Exits", "the return statements of `"+goName+"` in source order", exits)
+	e.stringList(leanName+"Atoms", "the source text of the atoms of `"+leanName+"`, in parameter order", atomSrc)
+}
+
 func init() {
 	register("C07", func(s *source, e *emitter) {
 		const sf = "core/syncx/singleflight.go"
@@ -607,5 +981,46 @@ func init() {
 		c07Uses(s, e, "core/stores/mon/clientmanager.go", "clientManager.", "monClientManagerUses")
 		c07VarInits(s, e, "core/stores/sqlx/sqlmanager.go", "NewResourceManager", "sqlxConnManagerVar")
 		c07Uses(s, e, "core/stores/sqlx/sqlmanager.go", "GetResource", "sqlxConnManagerUses")
+		// round 5: the order of effects as typed lists
+		c07EffType(e)
+		c07Effects(s, e, sf, "flightGroup.createCall", "createCallEffects")
+		c07Effects(s, e, sf, "flightGroup.makeCall", "makeCallEffects")
+		c07Effects(s, e, lc, "lockedGroup.Do", "lockedDoEffects")
+		c07Effects(s, e, lc, "lockedGroup.makeCall", "lockedMakeCallEffects")
+		c07Effects(s, e, rm, "ResourceManager.GetResource", "getResourceEffects")
+		c07Effects(s, e, rm, "ResourceManager.Inject", "rmInjectEffects")
+		// round 5: forwarded argument lists of the delegating entry points
+		c07Forward(s, e, sf, "flightGroup.Do", "createCall", 0, "doFwdCreateCall")
+		c07Forward(s, e, sf, "flightGroup.Do", "makeCall", 0, "doFwdMakeCall")
+		c07Forward(s, e, sf, "flightGroup.DoEx", "createCall", 0, "doExFwdCreateCall")
+		c07Forward(s, e, sf, "flightGroup.DoEx", "makeCall", 0, "doExFwdMakeCall")
+		c07Forward(s, e, lc, "lockedGroup.Do", "makeCall", 0, "lockedDoFwdMakeCall")
+		c07Forward(s, e, rm, "ResourceManager.GetResource", "singleFlight.Do", 0, "getResourceFwdDo")
+		c07Forward(s, e, cc, "Cache.Take", "barrier.Do", 0, "collectionTakeFwdDo")
+		c07Forward(s, e, cc, "Cache.Take", "c.Set", 1, "collectionTakeFwdSet")
+		c07Forward(s, e, cc, "Cache.Set", "SetWithExpire", 0, "collectionSetFwd")
+		c07Forward(s, e, cn, "cacheNode.Take", "TakeCtx", 0, "cacheNodeTakeFwd")
+		c07Forward(s, e, cn, "cacheNode.TakeCtx", "doTake", 0, "cacheNodeTakeCtxFwd")
+		c07Forward(s, e, cn, "cacheNode.TakeCtx", "SetCtx", 1, "cacheNodeTakeCtxFwdSet")
+		c07Forward(s, e, cn, "cacheNode.TakeWithExpire", "TakeWithExpireCtx", 0, "cacheNodeTakeWithExpireFwd")
+		c07Forward(s, e, cn, "cacheNode.TakeWithExpireCtx", "doTake", 0, "cacheNodeTakeWithExpireCtxFwd")
+		c07Forward(s, e, cn, "cacheNode.TakeWithExpireCtx", "query", 1, "cacheNodeTakeWithExpireCtxFwdQuery")
+		c07Forward(s, e, cn, "cacheNode.TakeWithExpireCtx", "SetWithExpireCtx", 2, "cacheNodeTakeWithExpireCtxFwdSet")
+		c07Forward(s, e, cn, "cacheNode.SetCtx", "SetWithExpireCtx", 0, "cacheNodeSetCtxFwd")
+		c07Forward(s, e, cn, "cacheNode.doTake", "barrier.DoEx", 0, "cacheNodeDoTakeFwdDoEx")
+		c07Forward(s, e, cn, "cacheNode.doTake", "doGetCache", 1, "cacheNodeDoTakeFwdDoGetCache")
+		c07Forward(s, e, cn, "cacheNode.doTake", "query", 1, "cacheNodeDoTakeFwdQuery")
+		c07Forward(s, e, cn, "cacheNode.doTake", "cacheVal", 1, "cacheNodeDoTakeFwdCacheVal")
+		c07Forward(s, e, cn, "cacheNode.doTake", "setCacheWithNotFound", 1, "cacheNodeDoTakeFwdNotFound")
+		c07Forward(s, e, cn, "cacheNode.doGetCache", "rds.GetCtx", 0, "cacheNodeDoGetCacheFwdGet")
+		// round 5: whole decision trees (nested if / else-if with re-assigned variables)
+		c07DecisionTree(s, e, cn, "cacheNode.doTake", 1, "doTakeClosureExit",
+			[]string{"cacheErr", "cachePlaceholder", "cacheNotFound", "queryNotFound", "setNfErr", "queryErr", "cacheValErr"})
+		c07DecisionTree(s, e, cn, "cacheNode.doTake", 0, "doTakeExit", []string{"flightErr", "fresh"})
+		c07DecisionTree(s, e, cn, "cacheNode.doGetCache", 0, "doGetCacheExit", []string{"getErr", "empty", "isPlaceholder"})
+		c07DecisionTree(s, e, cn, "cacheNode.processCache", 0, "processCacheExit", []string{"unmarshalOk", "delErr"})
+		// round 5: negative caching
+		c07Shape(s, e, cn, "cacheNode.setCacheWithNotFound", "cacheNodeSetCacheWithNotFoundShape")
+		c07Forward(s, e, cn, "cacheNode.setCacheWithNotFound", "SetnxExCtx", 0, "cacheNodeSetNotFoundFwd")
 	})
 }
